@@ -163,6 +163,9 @@ int main(void) {
     CTX = secp256k1_context_create(SECP256K1_CONTEXT_NONE);
     secp256k1_context_set_illegal_callback(CTX, ill_cb, NULL);
     secp256k1_context_set_error_callback(CTX, err_cb, NULL);
+#ifdef VERIF_EXACT_BUFFERS
+    static unsigned char *exact_blk[MAXARGS];
+#endif
     while ((n = getline(&line, &cap, stdin)) >= 0) {
         char *save = NULL, *tok; const op_entry *op; int i;
         while (n > 0 && (line[n-1] == '\n' || line[n-1] == '\r')) line[--n] = 0;
@@ -182,13 +185,14 @@ int main(void) {
 #ifdef VERIF_EXACT_BUFFERS
         /* sanitizer builds: every byte-string argument lives in a heap block of exactly its length (also length 0), so that a
            read or write past the declared length is seen by AddressSanitizer */
-        for (i = 0; i < NA; i++) if (A[i].kind == 2) { unsigned char *h = malloc(A[i].len); if (A[i].len) memcpy(h, A[i].b, A[i].len); A[i].b = h; }
+        /* (a zero-length request would be served as one byte by the sanitizer's allocator: an empty string points one past a 1-byte block) */
+        for (i = 0; i < NA; i++) if (A[i].kind == 2) { unsigned char *h = malloc(A[i].len ? A[i].len : 1); if (A[i].len) memcpy(h, A[i].b, A[i].len); exact_blk[i] = h; A[i].b = A[i].len ? h : h + 1; }
 #endif
         g_ill = 0; g_err = 0;
         if (!op) { out_int(-98); }
         else op->fn();
 #ifdef VERIF_EXACT_BUFFERS
-        for (i = 0; i < NA; i++) if (A[i].kind == 2) free(A[i].b);
+        for (i = 0; i < NA; i++) if (A[i].kind == 2) free(exact_blk[i]);
 #endif
         if (g_ill) { out_reserve(32); out_sep(); OUTLEN += sprintf(OUT + OUTLEN, "ILL%ld", g_ill); }
         if (g_err) { out_reserve(32); out_sep(); OUTLEN += sprintf(OUT + OUTLEN, "ERR%ld", g_err); }
